@@ -242,7 +242,7 @@ PROPS = {
                       "empty array is unchanged at any depth, a non-zero validation is never dropped; evaluation witnesses for the security "
                       "requirement states, references and unions; the two lossy shapes (F6) as refutation witnesses. The statement for all "
                       "documents (C14_statement) is not proved generically; the model agrees with real gob round trips on every generated case.",
-        "level_note": "Partial: encoding/gob is modelled, not verified; the per-document theorem is future work.",
+        "level_note": "Partial: encoding/gob is modelled, not verified; the transport theorem is proved for free-form payloads, non-zero validations and every scalar/slice/map field type (C14_simple_field_types_survive_gob), not for the struct kinds as wholes.",
         "technique": "Coq lemmas about a hand model of the gob transport + differential run against real gob round trips + oracle",
         "assumptions": ["gob.Register state of the package as at init"],
     },
